@@ -123,28 +123,32 @@ theorem request_start_ge_member {relay : Int} {maxInputs : Nat} {utxos : List Ut
 
 /-! ## the retry path -/
 
-/-- `markInputsPublishFailed(set, r)`: every input of the set that is inside a sweep
-    (PendingPublish / Published) becomes PublishFailed with `StartingFeeRate = r`; all other
-    inputs are untouched; indices are kept. -/
+/-- `markInputsPublishFailed(set, r)` (repaired code): every input of the set that is inside a
+    sweep (PendingPublish / Published) becomes PublishFailed with `StartingFeeRate` = the larger of
+    its recorded rate and `r`; all other inputs are untouched; indices are kept. -/
 theorem markFailed_spec (s : Sweeper) (ids : List Nat) (r : Int) :
     (s.markFailed ids r).inputs = s.inputs.map fun i =>
       if ids.contains i.p.idx && (i.state == .pendingPublish || i.state == .published) then
-        { i with state := .publishFailed, p := { i.p with start := some r } }
+        { i with state := .publishFailed, p := { i.p with start := some (max r (i.p.start.getD 0)) } }
       else i := rfl
 
 theorem failed_marks_start {s : Sweeper} {ids : List Nat} {r : Int} {i : SIn} (hi : i ∈ s.inputs)
     (hid : i.p.idx ∈ ids) (hst : i.state = .pendingPublish ∨ i.state = .published) :
     ∃ j ∈ (s.markFailed ids r).inputs, j.p.idx = i.p.idx ∧ j.state = .publishFailed ∧
-      j.p.start = some r ∧ j.p.budget = i.p.budget ∧ j.p.deadline = i.p.deadline := by
-  refine ⟨{ i with state := .publishFailed, p := { i.p with start := some r } }, ?_, rfl, rfl, rfl, rfl, rfl⟩
-  rw [markFailed_spec]
-  refine List.mem_map.mpr ⟨i, hi, ?_⟩
-  have h1 : ids.contains i.p.idx = true := by simpa using hid
-  have h2 : (i.state == .pendingPublish || i.state == .published) = true := by
-    rcases hst with h | h <;> simp [h]
-  simp only [h1, h2, Bool.and_self, ↓reduceIte]
+      j.p.start = some (max r (i.p.start.getD 0)) ∧ r ≤ j.p.start.getD 0 ∧
+      i.p.start.getD 0 ≤ j.p.start.getD 0 ∧ j.p.budget = i.p.budget ∧ j.p.deadline = i.p.deadline := by
+  refine ⟨{ i with state := .publishFailed, p := { i.p with start := some (max r (i.p.start.getD 0)) } },
+    ?_, rfl, rfl, rfl, ?_, ?_, rfl, rfl⟩
+  · rw [markFailed_spec]
+    refine List.mem_map.mpr ⟨i, hi, ?_⟩
+    have h1 : ids.contains i.p.idx = true := by simpa using hid
+    have h2 : (i.state == .pendingPublish || i.state == .published) = true := by
+      rcases hst with h | h <;> simp [h]
+    simp only [h1, h2, Bool.and_self, ↓reduceIte]
+  · simp only [Option.getD_some]; omega
+  · simp only [Option.getD_some]; omega
 
-/-- The retry never restarts below the rate the failed sweep reported: if an input carries
+/-- The retry never restarts below the rate recorded for an input: if an input carries
     `StartingFeeRate = some r` (as written by `markInputsPublishFailed`) and `r > 0`, EVERY request
     of a round that contains it — whatever it is regrouped with, topped up or not — has a
     `StartingFeeRate ≥ r`. -/
@@ -159,21 +163,79 @@ theorem retry_never_below_reported_rate {relay : Int} {maxInputs : Nat} {utxos :
   | none => rw [hs] at h; simp only [Option.getD_none] at h; omega
   | some v => rw [hs] at h; exact ⟨v, rfl, h⟩
 
-/-- a TxFailed result reporting rate 0 (`ErrTxNoOutput` / `ErrZeroFeeRateDelta` from the initial
-    broadcast carry no fee rate) ERASES the rate recorded for the inputs: the next request for the
-    input alone carries no starting rate, i.e. the fee function restarts from the estimator. This is
-    the model's reproduction of finding F-C18-retry-forgets-rate. -/
-theorem zero_rate_failure_forgets_start_witness :
+/-! ### recorded rates only grow, across ANY sequence of failures (also those reporting rate 0) -/
+
+/-- every input of `t` descends from an input of `s` (same outpoint) whose recorded starting rate
+    is not higher. -/
+def Desc (s t : Sweeper) : Prop :=
+  ∀ j ∈ t.inputs, ∃ i ∈ s.inputs, i.p.idx = j.p.idx ∧ i.p.start.getD 0 ≤ j.p.start.getD 0
+
+theorem Desc.refl (s : Sweeper) : Desc s s := fun j hj => ⟨j, hj, rfl, Int.le_refl _⟩
+
+theorem Desc.trans {a b c : Sweeper} (h1 : Desc a b) (h2 : Desc b c) : Desc a c := by
+  intro k hk
+  obtain ⟨j, hj, e1, l1⟩ := h2 k hk
+  obtain ⟨i, hi, e2, l2⟩ := h1 j hj
+  exact ⟨i, hi, e2.trans e1, Int.le_trans l2 l1⟩
+
+/-- one failure result, whatever rate it reports (0 included), lowers no recorded rate. -/
+theorem markFailed_desc (s : Sweeper) (ids : List Nat) (r : Int) : Desc s (s.markFailed ids r) := by
+  intro j hj
+  rw [markFailed_spec] at hj
+  obtain ⟨i, hi, rfl⟩ := List.mem_map.mp hj
+  refine ⟨i, hi, ?_, ?_⟩
+  · split <;> rfl
+  · split
+    · simp only [Option.getD_some]; omega
+    · exact Int.le_refl _
+
+theorem clean_desc (s : Sweeper) : Desc s s.clean := by
+  intro j hj
+  unfold Sweeper.clean at hj
+  exact ⟨j, (List.mem_filter.mp hj).1, rfl, Int.le_refl _⟩
+
+/-- any sequence of failure results `(members, reported rate)`. -/
+def Sweeper.failures (s : Sweeper) (fs : List (List Nat × Int)) : Sweeper :=
+  fs.foldl (fun t f => t.markFailed f.1 f.2) s
+
+theorem failures_desc : ∀ (fs : List (List Nat × Int)) (s : Sweeper), Desc s (s.failures fs) := by
+  intro fs
+  induction fs with
+  | nil => intro s; exact Desc.refl s
+  | cons f rest ih =>
+    intro s
+    unfold Sweeper.failures
+    rw [List.foldl_cons]
+    exact Desc.trans (markFailed_desc s f.1 f.2) (ih _)
+
+/-- STRONGER than `retry_never_below_reported_rate` (possible since repair e6d6149): after ANY
+    sequence of failure results — any member lists, any reported rates, rate 0 included — every
+    request of a later round starts at or above the rate that was recorded for each of its inputs
+    BEFORE those failures. -/
+theorem retry_never_below_any_recorded_rate {relay : Int} {maxInputs : Nat} {utxos : List Utxo}
+    (s : Sweeper) (fs : List (List Nat × Int)) {q : SReq}
+    (hq : q ∈ ((s.failures fs).sweepPending relay maxInputs utxos).2) {p : PInp} (hp : p ∈ q.ins) :
+    ∃ i ∈ s.inputs, i.p.idx = p.idx ∧ i.p.start.getD 0 ≤ q.start.getD 0 := by
+  obtain ⟨j, hj, hjp, _, _⟩ := request_members_idle hq hp
+  obtain ⟨i, hi, e, l⟩ := failures_desc fs s j hj
+  refine ⟨i, hi, by rw [e, hjp], Int.le_trans l ?_⟩
+  rw [hjp]
+  exact request_start_ge_member hq hp
+
+/-- the behaviour before repair e6d6149 (`markFailedOverwrite`) does NOT have this property: a
+    failure reporting rate 0 (`ErrTxNoOutput` / `ErrZeroFeeRateDelta` of the initial broadcast)
+    erases the recorded rate 5000 and a set made of the input has no starting rate, so the fee
+    function restarts from the estimator (finding F-C18-retry-forgets-rate); the repaired
+    `markFailed` keeps 5000 on the same input. -/
+theorem overwrite_variant_forgets_rate_witness :
     let i : SIn := { p := { idx := 0, budget := 10000, deadline := 120, start := some 5000,
                             immediate := false, lt := none, wu := 400, value := 100000, req := none,
                             reqSize := 0 }, state := .pendingPublish }
-    let e : SEnv := ⟨253, 10, []⟩
     let s : Sweeper := { inputs := [i], height := 100 }
-    let s1 := (s.step e (.result [0] .failed 0 true [])).1
-    -- the input is idle again, its recorded rate 5000 was overwritten by 0 ...
-    s1.inputs.map (fun j => (j.state, j.p.start)) = [(.publishFailed, some 0)] ∧
-    -- ... and a set made of it has NO starting rate (`reqOfSet?_some`: that is the request's)
-    setStart (s1.inputs.map (·.p)) = none := by
+    ((s.markFailedOverwrite [0] 0).inputs.map (fun j => (j.state, j.p.start)) = [(.publishFailed, some 0)] ∧
+     setStart ((s.markFailedOverwrite [0] 0).inputs.map (·.p)) = none) ∧
+    ((s.markFailed [0] 0).inputs.map (fun j => (j.state, j.p.start)) = [(.publishFailed, some 5000)] ∧
+     setStart ((s.markFailed [0] 0).inputs.map (·.p)) = some 5000) := by
   decide
 
 /-! ## fee function restart from our own mempool tx -/
@@ -494,6 +556,24 @@ theorem requests_disjoint {relay : Int} {maxInputs : Nat} {utxos : List Utxo} {s
     rw [← List.map_append]
     exact (hperm.map _).nodup_iff.mpr hbase
   exact (List.Sublist.append hs1 hs2).nodup hsplit
+
+/-- … and at or above every rate a failure in the sequence reported for an input that was inside
+    the failed sweep: failure `(ids, r)` first, then any further failures `fs`. -/
+theorem retry_never_below_earlier_failure {relay : Int} {maxInputs : Nat} {utxos : List Utxo}
+    (s : Sweeper) (ids : List Nat) (r : Int) (fs : List (List Nat × Int)) (hnd : s.idxs.Nodup)
+    {i : SIn} (hi : i ∈ s.inputs) (hid : i.p.idx ∈ ids)
+    (hst : i.state = .pendingPublish ∨ i.state = .published) {q : SReq}
+    (hq : q ∈ (((s.markFailed ids r).failures fs).sweepPending relay maxInputs utxos).2) {p : PInp}
+    (hp : p ∈ q.ins) (hidx : p.idx = i.p.idx) : r ≤ q.start.getD 0 := by
+  obtain ⟨j, hj, e, l⟩ := retry_never_below_any_recorded_rate (s.markFailed ids r) fs hq hp
+  -- `j` is the marked copy of `i` (outpoints are pairwise different)
+  obtain ⟨k, hk, ek, _, _, hrk, _⟩ := failed_marks_start (r := r) hi hid hst
+  have hnd' : (s.markFailed ids r).idxs.Nodup := by rw [idxs_markFailed]; exact hnd
+  have hjk : j = k := by
+    have hinj := List.inj_on_of_nodup_map hnd'
+    exact hinj hj hk (by rw [e, hidx, ek])
+  subst hjk
+  exact Int.le_trans hrk l
 
 /-! ## non-vacuity -/
 
